@@ -159,6 +159,10 @@ func resolveProllyConflicts(ctx *sql.Context, tbl *doltdb.Table, tblName doltdb.
 
 		// update secondary indexes
 		for _, mutIdx := range mutIdxs {
+			if len(ourRow) == 0 && len(theirRow) == 0 {
+				// The row is absent on both sides (a keyless convergent delete): no index entry to change.
+				continue
+			}
 			if len(ourRow) == 0 {
 				err = mutIdx.InsertEntry(ctx, cnfArt.Key, theirRow)
 			} else if len(theirRow) == 0 {
